@@ -251,6 +251,18 @@ func genC18Cfg(seed uint64, tier string) *world.Scenario {
 	}
 	sc.Params["uid"], sc.Params["gid"], sc.Params["mode"] = float64(p.uid), float64(p.gid), float64(p.mode)
 	sc.Variant = kernel.Pick(r, "direct", "symlink", "dotdot", "dotdot", "relative", "cwd")
+	if ur := kernel.NewRand(seed, "c18cfg.user"); ur.Bool(0.3) {
+		// fan2go itself runs as an ordinary user (a service account, somebody trying `fan2go config validate`):
+		// whose files are acceptable does not depend on who asks
+		sc.Params["asUser"] = 1
+		if ur.Bool(0.6) {
+			// the file belongs to that very user and nobody else may write it: as tidy as a file can be without
+			// being root's
+			sc.Params["uid"], sc.Params["gid"] = float64(otherID), float64(kernel.Pick(ur, 0, otherID))
+			sc.Params["mode"] = float64(kernel.Pick(ur, 0o644, 0o604, 0o600, 0o744, 0o755, 0o640))
+		}
+		sc.Params["mode"] = float64(int(sc.Params["mode"]) | 0o004) // that user must be able to read the file at all
+	}
 	return sc
 }
 
@@ -269,8 +281,13 @@ func runC18Cfg(t *testing.T, sc *world.Scenario) *check.Result {
 	if layout == "direct" {
 		layout = ""
 	}
-	co := runChild(&childSpec{Scenario: sc, WorldDir: worldDir, OutDir: outDir, Args: []string{"config", "validate"},
-		CfgLayout: layout, CfgUID: p.uid, CfgGID: p.gid, CfgMode: uint32(p.mode) | 0o400}, 60*time.Second)
+	asUser := sc.Params["asUser"] == 1
+	cs := &childSpec{Scenario: sc, WorldDir: worldDir, OutDir: outDir, Args: []string{"config", "validate"},
+		CfgLayout: layout, CfgUID: p.uid, CfgGID: p.gid, CfgMode: uint32(p.mode) | 0o400}
+	if asUser {
+		cs.DropToUID = otherID
+	}
+	co := runChild(cs, 60*time.Second)
 	accumulate(res, co)
 	if stuckViolation(res, "C18", co) {
 		return res
@@ -284,11 +301,19 @@ func runC18Cfg(t *testing.T, sc *world.Scenario) *check.Result {
 	allowed := refAllowed(p)
 	sig := fmt.Sprintf("layout=%s owner=%s group=%s gw=%v ow=%v", sc.Variant, rootOr(p.uid), rootOr(p.gid), p.mode&0o020 != 0, p.mode&0o002 != 0)
 	res.Probe(fmt.Sprintf("config-validate-runs:%s:file-root-controlled=%v", sc.Variant, allowed))
+	if asUser {
+		if !co.hasNote("running-as uid=54321") {
+			res.Harness = "c18cfg: the child did not drop its privileges\n" + tailStr(co.Stderr, 400)
+			return res
+		}
+		res.Probe(fmt.Sprintf("config-validate-as-ordinary-user:file-owned-by-that-user=%v", p.uid == otherID))
+		sig += " caller=ordinary-user"
+	}
 	switch {
 	case accepted && !allowed:
 		res.Violate("C18", "config-file-rejected", "config-file-rejected "+sig, 0, nil,
 			"`fan2go config validate` accepted a configuration declaring a cmd sensor although the file it loaded has %+v (mode %o); layout %s", p, p.mode, sc.Variant)
-	case !accepted && allowed:
+	case !accepted && allowed && !asUser: // (an ordinary user may fail for other reasons: it cannot open the database, ...)
 		res.Violate("C18", "config-file-accepted", "config-file-accepted "+sig, 0, nil,
 			"`fan2go config validate` rejected a root-controlled configuration file (%+v, mode %o; layout %s): exit %d %s", p, p.mode, sc.Variant, co.ExitCode, tailStr(co.Stderr, 300))
 	}
